@@ -235,7 +235,13 @@ func (e *Engine) Discharge(obls []*Obligation, par int) {
 	solve := func(o *Obligation) {
 		o.Query = e.BuildQuery(o, declsFor(o))
 		h := sha1.Sum([]byte(o.ID))
-		o.Result = smt.Solve(e.WorkDir, fmt.Sprintf("q_%x", h[:8]), o.Query, e.TimeoutS)
+		t := e.TimeoutS
+		if o.Expected == "sat" && t > 8 {
+			// cover / vacuity probes hold unless they are refuted; a contradiction is found quickly or not at all,
+			// so they do not get the full time limit (quantified axioms make the solvers answer unknown late)
+			t = 8
+		}
+		o.Result = smt.Solve(e.WorkDir, fmt.Sprintf("q_%x", h[:8]), o.Query, t)
 	}
 	// Frame obligations of one program point share prefix and reach condition and differ only in the
 	// heap cell they talk about: they are first tried as one conjunction, and only if that is not
